@@ -283,7 +283,11 @@ class SeqExec(HeapExec):
             idx = If(key.t < 0, key.t + Length(s), key.t)
             self.oblig(p, "SAFE", "index", And(0 <= idx, idx < Length(s)), note="no IndexError")
             p.assume(0 <= idx, idx < Length(s))
-            yield p, (vref(s[idx]) if elem_kind(obj) == "ref" else qseq(s[idx]))
+            ek = elem_kind(obj)
+            if ek == "str":
+                yield p, V("str", s[idx])
+            else:
+                yield p, (vref(s[idx]) if ek == "ref" else qseq(s[idx]))
             return
         yield from HeapExec.subscript_load(self, obj, key, p, e)
 
